@@ -418,6 +418,14 @@ pub fn run_c15(ctx: &Ctx) -> i32 {
         port_pair(ov.clone(), Order::Asc, alphabet(u3(), &[b"x"], 2, true), vec![], " empty"),
         port_pair(ov.clone(), Order::Asc, alphabet(u3(), &[b"x"], 2, true), lower.clone(), " populated"),
         port_pair(Cfg::Phys, Order::Asc, alphabet(u3(), &[b"x"], 1, true), vec![], ""),
+        // names: prefix-sharing, dotted, multi-byte (byte offsets in the ported re-rooting code)
+        port_pair(Cfg::Mem, Order::Asc, alphabet(u_names_small(), &[b"x"], 1, true), vec![], " names"),
+        port_pair(Cfg::Mem, Order::Asc, alphabet(Universe::new("U_mb{é,é/a,éa,éa/é}", &["/é", "/é/a", "/éa", "/éa/é"]), &[b"x"], 1, true), vec![], " multi-byte"),
+        port_pair(Cfg::alt(Cfg::Mem, "/a"), Order::Asc, alphabet(u_names_small(), &[b"x"], 1, false), vec![], " names"),
+        // deeper stackings
+        port_pair(Cfg::Ov(vec![Cfg::Mem, Cfg::Mem, Cfg::Mem]), Order::Asc, alphabet(u3(), &[b"x"], 1, true), vec![(1, vec![("/a".to_string(), Node::Dir)]), (2, vec![("/a/a".to_string(), Node::File(b"m".to_vec())), ("/b".to_string(), Node::Dir)])], " 3 layers"),
+        port_pair(ov.clone(), Order::Asc, alphabet(Universe::new("U_chain3{a,a/a,a/a/a}", &["/a", "/a/a", "/a/a/a"]), &[b"x"], 1, true), vec![(1, vec![("/a".to_string(), Node::Dir), ("/a/a".to_string(), Node::Dir), ("/a/a/a".to_string(), Node::File(b"l".to_vec()))])], " chain in the lower layer"),
+        port_pair(Cfg::alt(ov.clone(), "/Z"), Order::Asc, alphabet(u3(), &[b"x"], 1, true), vec![], ""),
     ];
     if thorough {
         spaces.push(port_pair(Cfg::Mem, Order::Asc, alphabet(u22(), &[b"", b"x"], 2, true), vec![], " W2"));
@@ -425,8 +433,8 @@ pub fn run_c15(ctx: &Ctx) -> i32 {
         spaces.push(port_pair(Cfg::Phys, Order::Asc, alphabet(u22(), &[b"x"], 1, true), vec![], " U22"));
         spaces.push(port_pair(Cfg::alt(Cfg::Phys, "/Z"), Order::Asc, alphabet(u4(), &[b"x"], 1, true), vec![], ""));
         spaces.push(port_pair(ov.clone(), Order::Asc, alphabet(u4(), &[b"x"], 2, true), lower.clone(), " populated U4"));
-        spaces.push(port_pair(Cfg::Ov(vec![Cfg::Mem, Cfg::Mem, Cfg::Mem]), Order::Asc, alphabet(u3(), &[b"x"], 1, true), vec![(1, vec![("/a".to_string(), Node::Dir)]), (2, vec![("/a/a".to_string(), Node::File(b"m".to_vec())), ("/b".to_string(), Node::Dir)])], " 3 layers"));
-        spaces.push(port_pair(Cfg::alt(ov.clone(), "/Z"), Order::Asc, alphabet(u3(), &[b"x"], 1, true), vec![], ""));
+        spaces.push(port_pair(Cfg::Ov(vec![Cfg::Mem, Cfg::Mem, Cfg::Mem]), Order::Asc, alphabet(u4(), &[b"x"], 1, true), vec![(1, vec![("/a".to_string(), Node::Dir)]), (2, vec![("/a/a".to_string(), Node::File(b"m".to_vec())), ("/b".to_string(), Node::Dir)])], " 3 layers U4"));
+        spaces.push(port_pair(Cfg::alt(ov.clone(), "/Z"), Order::Asc, alphabet(u4(), &[b"x"], 1, true), lower.clone(), " populated"));
     }
     let lim = limits(ctx);
     let mut stats = vec![];
